@@ -618,7 +618,7 @@ class McDiarmidTwoSidedTest(McDiarmidOneSidedTest):
         """
         drift_increase, warning_increase = super().check_changes()
         drift_decrease = (
-            False if drift_increase else self._check_mean_decrease(alpha=self.alpha_d),
+            False if drift_increase else self._check_mean_decrease(alpha=self.alpha_d)
         )
         warning_decrease = (
             False
